@@ -16,6 +16,7 @@ import (
 	"errors"
 	"fmt"
 	"io"
+	"os"
 	"strings"
 	"sync"
 
@@ -55,7 +56,7 @@ type c11Rec struct {
 	mu      sync.Mutex
 	events  []c11Event
 	calls   map[string]int           // fault class -> calls so far
-	faults  map[string]map[int]error // fault class (begin stmt commit rollback) -> 0-based call -> error
+	faults  map[string]map[int]error // fault class (begin prepare stmt commit rollback) -> 0-based call -> error
 	hit     int                      // faults actually injected
 	results []c11Result              // served to successive queries, then the default
 	iter    map[int]int              // statement ordinal (class "stmt") -> row whose fetch fails
@@ -92,6 +93,15 @@ func c11Open(rec *c11Rec) (db *sql.DB, closeFn func(), err error) {
 		_ = db.Close()
 		c11Recs.Delete(dsn)
 	}, nil
+}
+
+// c11RegisterDSN makes rec reachable under a fresh DSN (for constructors that open the
+// database themselves) and returns the DSN.
+func c11RegisterDSN(rec *c11Rec) string {
+	c11Setup()
+	dsn := fmt.Sprintf("c11-lazy-%d-%d", os.Getpid(), vk.Seq())
+	c11Recs.Store(dsn, rec)
+	return dsn
 }
 
 func (r *c11Rec) fault(class string, call int, err error) {
@@ -229,7 +239,7 @@ type c11Conn struct {
 }
 
 func (c *c11Conn) Prepare(query string) (driver.Stmt, error) {
-	if err := c.rec.step("prepare", "", c.id); err != nil {
+	if err := c.rec.step("prepare", "prepare", c.id); err != nil {
 		return nil, err
 	}
 	return &c11Stmt{c: c}, nil
